@@ -89,6 +89,7 @@ type ExecOpts struct {
 	Timeout time.Duration // default 30 s
 	Stdout  *os.File      // nil: captured
 	Prefix  []string      // e.g. strace …, unshare …
+	Stdin   *string       // fed through a pipe (a non-seekable input), nil: no stdin
 }
 
 // Exec runs the real binary once.
@@ -110,6 +111,10 @@ func Exec(hr string, args []string, o ExecOpts) Result {
 	sort.Strings(keys)
 	for _, k := range keys {
 		cmd.Env = append(cmd.Env, k+"="+o.Env[k])
+	}
+	if o.Stdin != nil {
+		// through a reader that is not an *os.File, so that the child gets a pipe
+		cmd.Stdin = io.MultiReader(strings.NewReader(*o.Stdin))
 	}
 	var so, se bytes.Buffer
 	if o.Stdout != nil {
